@@ -38,6 +38,9 @@ type faultOrigin struct {
 	srv    *httptest.Server
 }
 
+const condETag = "\"c1\""
+const condLastModified = "Mon, 01 Jan 2024 00:00:00 GMT"
+
 func faultBody(n int) []byte { return bytes.Repeat([]byte("0123456789abcdef"), n/16+1)[:n] }
 
 func newFaultOrigin() *faultOrigin {
@@ -84,6 +87,60 @@ func newFaultOrigin() *faultOrigin {
 					c.Close()
 				}
 			}
+		case strings.Contains(p, "/nobody/"):
+			// cacheable answers that carry no body at all
+			w.Header().Set("Cache-Control", "max-age=60")
+			switch {
+			case strings.Contains(p, "/204/"):
+				w.WriteHeader(204)
+			case strings.Contains(p, "/301/"):
+				w.Header().Set("Location", "/elsewhere")
+				w.WriteHeader(301)
+			default: // "/cl0/" and HEAD requests
+				w.Header().Set("Content-Type", "image/png")
+				w.Header().Set("Content-Length", "0")
+				w.WriteHeader(200)
+			}
+		case strings.Contains(p, "/badenc/"):
+			// a cacheable, compressible answer whose body is NOT what its Content-Encoding says
+			enc := p[strings.LastIndex(p, "/")+1:]
+			w.Header().Set("Cache-Control", "max-age=60")
+			w.Header().Set("Content-Type", "text/plain")
+			w.Header().Set("Content-Encoding", enc)
+			w.WriteHeader(200)
+			switch {
+			case strings.HasSuffix(p, "/cut/"+enc):
+				// a valid stream of that encoding cut in the middle
+				var full []byte
+				body := bytes.Repeat([]byte("the quick brown fox jumps over the lazy dog. "), 200)
+				switch enc {
+				case "gzip":
+					full = encGzip(body)
+				case "br":
+					full = encBr(body)
+				case "zst":
+					full = encZstd(body)
+				case "snz":
+					full = encSnappy(body)
+				case "lz4":
+					full, _ = encLZ4(body)
+				}
+				w.Write(full[:len(full)/2])
+			default:
+				w.Write(bytes.Repeat([]byte("this is not compressed data at all. "), 100))
+			}
+		case strings.Contains(p, "/cond/"):
+			// an origin that honours validators: ETag and Last-Modified
+			w.Header().Set("Cache-Control", "max-age=60")
+			w.Header().Set("Content-Type", "image/png")
+			w.Header().Set("Etag", condETag)
+			w.Header().Set("Last-Modified", condLastModified)
+			if req.Header.Get("If-None-Match") == condETag || (req.Header.Get("If-None-Match") == "" && req.Header.Get("If-Modified-Since") == condLastModified) {
+				w.WriteHeader(304)
+				return
+			}
+			w.WriteHeader(200)
+			io.WriteString(w, "conditional-resource-body")
 		default:
 			w.Header().Set("Cache-Control", "no-store")
 			w.WriteHeader(200)
@@ -107,7 +164,7 @@ func suiteFault(r *rng, n int) {
 		{Name: "lt", Upstream: "u1", Prefixes: []string{"/t"}, ProxyTimeout: "5s"},
 		{Name: "l1", Upstream: "u1"},
 	})
-	s := server.NewServer(server.ServerOption{Addr: "127.0.0.1:0", Locations: []string{"lt", "l1"}, Cache: "c1", CompressMinLength: 1 << 20})
+	s := server.NewServer(server.ServerOption{Addr: "127.0.0.1:0", Locations: []string{"lt", "l1"}, Cache: "c1", CompressMinLength: 1024})
 	started := false
 	for attempt := 0; attempt < 5 && !started; attempt++ {
 		if err := s.Start(true); err == nil {
@@ -128,36 +185,97 @@ func suiteFault(r *rng, n int) {
 	}
 	client := &http.Client{
 		Timeout:       15 * time.Second,
-		Transport:     &http.Transport{DisableKeepAlives: true},
+		Transport:     &http.Transport{DisableKeepAlives: true, DisableCompression: true},
 		CheckRedirect: func(*http.Request, []*http.Request) error { return http.ErrUseLastResponse },
 	}
 	type out struct {
-		code int // -1: the client saw a transport error (aborted connection)
+		ms   int64
+		code int // -1: the client saw a transport error (aborted connection); -2: no answer within the client's time-out
 		n    int
 		xs   string
 		loc  string
 	}
+	var extra http.Header
 	do := func(method, path string, body []byte) out {
 		var rd io.Reader
 		if body != nil {
 			rd = bytes.NewReader(body)
 		}
 		req, _ := http.NewRequest(method, front+path, rd)
+		for k, vs := range extra {
+			req.Header[k] = vs
+		}
+		t0 := time.Now()
 		resp, err := client.Do(req)
 		if err != nil {
-			return out{code: -1}
+			if ne, ok := err.(net.Error); ok && ne.Timeout() {
+				return out{ms: time.Since(t0).Milliseconds(), code: -2}
+			}
+			return out{ms: time.Since(t0).Milliseconds(), code: -1}
 		}
 		defer resp.Body.Close()
 		b, err := io.ReadAll(resp.Body)
 		if err != nil {
-			return out{code: -1, n: len(b)}
+			return out{ms: time.Since(t0).Milliseconds(), code: -1, n: len(b)}
 		}
-		return out{resp.StatusCode, len(b), resp.Header.Get("X-Status"), resp.Header.Get("Location")}
+		return out{time.Since(t0).Milliseconds(), resp.StatusCode, len(b), resp.Header.Get("X-Status"), resp.Header.Get("Location")}
 	}
 	for i := 0; i < n; i++ {
 		cr := r.fork(uint64(i))
 		pre := cr.pick([]string{"", "/t"}) // without / with a proxy timeout on the location
-		switch i % 3 {
+		switch i % 6 {
+		case 4:
+			// cacheable answers without a body: stored like any other (a burst costs one upstream request)
+			kind := cr.pick([]string{"head", "cl0", "204", "301"})
+			method := "GET"
+			if kind == "head" {
+				method = "HEAD"
+			}
+			p := fmt.Sprintf("%s/nobody/%s/%d", pre, kind, i)
+			r1 := do(method, p, nil)
+			r2 := do(method, p, nil)
+			emit("fault", "nobody", hx(kind), b2s(pre != ""), "=>", itoa(int64(r1.code)), hx(r1.xs), itoa(int64(r2.code)), hx(r2.xs), itoa(int64(o.count(p))))
+			stat("nobody-" + kind)
+		case 5:
+			// an origin whose body is not what its Content-Encoding says: whatever the client is told, the fetch ENDS,
+			// and so do the requests that follow (the key is not left in the fetching state)
+			enc := cr.pick([]string{"gzip", "br", "lz4", "zst", "snz"})
+			cut := cr.pick([]string{"junk", "cut"})
+			extra = http.Header{"Accept-Encoding": []string{cr.pick([]string{"identity", "br", "gzip"})}}
+			p := fmt.Sprintf("%s/badenc/%d/%s/%s", pre, i, cut, enc)
+			old := client.Timeout
+			client.Timeout = 6 * time.Second
+			r1 := do("GET", p, nil)
+			r2 := do("GET", p, nil)
+			r3 := do("GET", p, nil)
+			client.Timeout = old
+			extra = nil
+			emit("fault", "badenc", hx(enc), hx(cut), "=>", itoa(int64(r1.code)), itoa(r1.ms), itoa(int64(r2.code)), itoa(r2.ms), itoa(int64(r3.code)), itoa(r3.ms))
+			stat("badenc-" + enc)
+			if r1.code == -2 || r2.code == -2 || r3.code == -2 {
+				// something inside pike is stuck or spinning: what follows would only measure that
+				flush()
+				return
+			}
+		case 3:
+			// a client revalidating what it holds, on a COLD key (the proxy withholds the validators from the origin so
+			// that a full response is stored) and again on the hit: its validators match, so it gets a 304 — by ETag,
+			// by Last-Modified alone, or both
+			kind := cr.pick([]string{"etag", "modified", "both"})
+			extra = http.Header{}
+			if kind != "modified" {
+				extra["If-None-Match"] = []string{condETag}
+			}
+			if kind != "etag" {
+				extra["If-Modified-Since"] = []string{condLastModified}
+			}
+			p := fmt.Sprintf("%s/cond/%d", pre, i)
+			r1 := do("GET", p, nil)
+			r2 := do("GET", p, nil)
+			extra = nil
+			r3 := do("GET", p, nil) // a plain client afterwards gets the stored full response
+			emit("fault", "cond", hx(kind), b2s(pre != ""), "=>", itoa(int64(r1.code)), hx(r1.xs), itoa(int64(r2.code)), hx(r2.xs), itoa(int64(r3.code)), itoa(int64(r3.n)), hx(r3.xs), itoa(int64(o.count(p))))
+			stat("cond-" + kind)
 		case 0:
 			method := cr.pick([]string{"GET", "HEAD", "DELETE", "POST", "POST", "PUT", "OPTIONS"})
 			var body []byte
